@@ -249,7 +249,8 @@ pub fn build(seed: u64, tier: Tier) -> Corpus {
     // Unicode property family (C01, C02, C09): one rule per property name; all names in the
     // thorough tier, a seed-rotated slice of 48 in the quick tier
     {
-        let names: Vec<&str> = pest::unicode::unicode_property_names().collect();
+        // INHERITED is kept out of the family: finding K7 (its own reproducer grammar is compiled)
+        let names: Vec<&str> = pest::unicode::unicode_property_names().filter(|n| *n != "INHERITED").collect();
         let per = 48;
         let chunks: Vec<&[&str]> = names.chunks(per).collect();
         let picked: Vec<usize> = match tier {
